@@ -104,14 +104,16 @@ pub fn eq(a: &[u8], b: &[u8]) -> bool {
     if a.len() != b.len() {
         return false;
     }
+    // branch-free accumulation: an early return on symbolic data makes every later iteration
+    // conditionally reachable, which the model checker pays for dearly (measured: 256 s / 17 GB
+    // vs 5 s / 0.2 GB for an 11-byte comparison)
+    let mut same = true;
     let mut i = 0;
     while i < a.len() {
-        if a[i] != b[i] {
-            return false;
-        }
+        same &= a[i] == b[i];
         i += 1;
     }
-    true
+    same
 }
 
 #[derive(Clone)]
